@@ -190,6 +190,28 @@ pub const SUB_MOR: Sub<MorCase> = Sub {
     journal: false,
 };
 
+
+/// the minimal-image clauses alone (no covers), for the high-volume degree grid
+fn check_grid(c: &MinCase, obs: &mut Obs) -> Result<(), String> {
+    let x = &c.ds;
+    ensure!(x.is_complete() && x.ops_are_involutions() && x.v_consistent() && x.is_connected() && x.commutes(), "harness: case is not a connected complete D-symbol");
+    let (cc, _) = coarsest_congruence(x);
+    check_one(x, obs)?;
+    let aut = x.to_partial().automorphisms();
+    let own = crate::oracle::iso::automorphisms(x, true);
+    ensure!(aut.len() == own.len(), "automorphisms({}) lists {} maps, there are {} operation-commuting degree-preserving self-bijections", x.text(), aut.len(), own.len());
+    obs.nontrivial(cc < x.size || own.len() > 1);
+    Ok(())
+}
+
+pub const SUB_GRID: Sub<MinCase> = Sub {
+    name: "degree_grid",
+    rule: "small 2D D-sets that fold as plain D-sets and have two or more orbits for both index pairs, with every combination of branching numbers from a wide range (1..72 and more) on two orbits of one index pair and a small range on the others: minimal image size, minimality test and number of automorphisms against partition refinement / brute force; two chambers are identified exactly when their whole degree vectors agree along the fold, whatever the numeric values; non-trivial = proper quotient or non-trivial automorphism",
+    check: check_grid,
+    panic_discards: &[],
+    journal: false,
+};
+
 pub fn run(ctx: &mut Ctx) {
     let t = ctx.tier;
     ctx.rule = "all branching assignments (v <= 3, capped per D-set) on all connected D-sets of the brute-force enumeration, each with its oriented cover and harness-built 2- and 3-sheeted covers (brute force over voltage assignments); morphism cases: symbol -> itself, -> its minimal image, cover -> base, -> unrelated symbols of the same dimension; proptest-generated renumbered symbols and random symbols up to 40 chambers; oracles = partition refinement and BFS morphism extension with exhaustive verification".into();
@@ -241,6 +263,49 @@ pub fn run(ctx: &mut Ctx) {
     }
     ctx.run_par(&SUB_MOR, mor, None);
 
+    // degree grid: wide ranges of branching numbers on D-sets whose symmetry allows folding
+    ctx.layer("degree-grid");
+    {
+        let big = t.pick(72usize, 130usize);
+        let small = 4usize;
+        let mut plans: Vec<(DS, Vec<Vec<(usize, usize)>>, usize)> = vec![];
+        for ds in dsets_up_to(2, t.pick(6, 7)) {
+            let reps: Vec<Vec<(usize, usize)>> = (0..2).map(|i| (1..=ds.size).filter(|&d| ds.orbit2(i, i + 1, d)[0] == d).map(|d| (i, d)).collect()).collect();
+            if reps[0].len() < 2 || reps[1].len() < 2 || reps[0].len() + reps[1].len() > t.pick(5, 6) || coarsest_congruence(&ds.dset()).0 == ds.size {
+                continue;
+            }
+            for wide in 0..2 {
+                plans.push((ds.clone(), reps.clone(), wide));
+            }
+        }
+        let per_plan: Vec<u64> = plans.iter().map(|(_, reps, wide)| (big as u64).pow(2) * 2u64.pow(reps[*wide].len() as u32 - 2) * (small as u64).pow(reps[1 - *wide].len() as u32)).collect();
+        let total: u64 = per_plan.iter().sum();
+        let note = format!("{} (D-set, wide index pair) plans: branching 1..={} on two orbits of the wide pair, 1..=2 on its others, 1..={} on the orbits of the other pair", plans.len(), big, small);
+        ctx.run_par_indexed(
+            &SUB_GRID,
+            total,
+            |mut idx| {
+                let mut k = 0;
+                while idx >= per_plan[k] {
+                    idx -= per_plan[k];
+                    k += 1;
+                }
+                let (ds, reps, wide) = &plans[k];
+                let mut x = ds.clone();
+                for (n, &(i, d)) in reps[*wide].iter().enumerate() {
+                    let range = if n < 2 { big as u64 } else { 2 };
+                    x.set_v(i, d, 1 + (idx % range) as usize);
+                    idx /= range;
+                }
+                for &(i, d) in reps[1 - *wide].iter() {
+                    x.set_v(i, d, 1 + (idx % small as u64) as usize);
+                    idx /= small as u64;
+                }
+                Some(MinCase { ds: x, sheets: 0, pick: 0 })
+            },
+            Some(&note),
+        );
+    }
     ctx.layer("random");
     let n = t.pick(40_000u32, 2_000_000u32);
     let pool = std::sync::Arc::new(dsets);
@@ -285,6 +350,7 @@ pub fn replay(ctx: &mut Ctx, sub: &str, case: &Value) -> Option<Result<(), Strin
     Some(match sub {
         "minimal_image" => ctx.run_one(&SUB_MIN, &MinCase::decode(case)?),
         "morphisms" => ctx.run_one(&SUB_MOR, &MorCase::decode(case)?),
+        "degree_grid" => ctx.run_one(&SUB_GRID, &MinCase::decode(case)?),
         _ => return None,
     })
 }
